@@ -228,3 +228,41 @@ func H_C20_faulty() {
 	app.Stop()
 	vReach("end")
 }
+
+//verif:witness H_C20_retention end
+//verif:bound C20 all rolling appender under the concrete clock (interval 1 h, max age 1 / 12 / 24 / 168 h): three acknowledged calls 0 or 1700 s apart (so an hour boundary may be crossed and the retention scan runs to completion after every call, but nothing is older than the smallest max age): after each call every acknowledged line is in the appender's files
+//verif:engine-only H_C20_retention
+func H_C20_retention() {
+	vOpt("loop", 400)
+	vOpt("preempt", 1)
+	root := vFSRoot()
+	defer vFSCleanup()
+	dir := root + "/logs"
+	vFSMkdir(dir)
+	maxAge := [4]int32{1, 12, 24, 168}[vChoose("maxAge", 4)]
+	lay := &TextLayout{BaseLayout{FileLineLength: 48}}
+	app := &RollingFileAppender{Layout: lay, FileDir: dir, FileName: "r", Rotation: TimeRotation{Interval: time.Hour}, MaxAge: maxAge}
+	if err := app.Start(); err != nil {
+		panic(err)
+	}
+	all := LevelRange{MinLevel: NoneLevel, MaxLevel: MaxLevel}
+	logger := &SyncLogger{LoggerBase: LoggerBase{Name: "s", Level: all}}
+	logger.AppenderRefs.AppenderRefs = []*AppenderRef{{Appender: app, Level: all}}
+	tag := &Tag{tag: "_t_x", logger: logger}
+	markers := [3]string{"first-line", "second-line", "third-line"}
+	for i := 0; i < 3; i++ {
+		vClockAdvance([2]int{0, 1700}[vChoose("gap", 2)])
+		Info(context.Background(), tag, Msg(markers[i]))
+		vDrain() // a retention scan started by a rotation runs to completion
+		var content []byte
+		for _, n := range vFSNames(dir) {
+			c, _ := vFSRead(dir, n)
+			content = append(content, c...)
+		}
+		for j := 0; j <= i; j++ {
+			vAssert(vContains(content, markers[j]+"\n"), "acknowledged-line-survives-rotation-and-retention")
+		}
+	}
+	app.Stop()
+	vReach("end")
+}
